@@ -358,13 +358,13 @@ def TECMP_Decoder_ConvertPacketsToAsam_loop1 (l_ : List (Option TECMP_Payload_St
       else
         TECMP_Decoder_ConvertPacketsToAsam_loop1 rest_ a_payloads a_header v_packets
 
-/-- `TECMP::Decoder::ConvertPacketsToAsam` (line 178) -/
+/-- `TECMP::Decoder::ConvertPacketsToAsam` (line 184) -/
 def TECMP_Decoder_ConvertPacketsToAsam_obj (a_payloads : List (Option TECMP_Payload_St)) (a_header : Bytes) : Option (List (Option TPacket_St)) := do
   let v_packets := ([] : List (Option TPacket_St))
   let v_packets ← TECMP_Decoder_ConvertPacketsToAsam_loop1 a_payloads a_payloads a_header v_packets
   pure v_packets
 
-/-- `TECMP::Decoder::GetHeader` (line 46) -/
+/-- `TECMP::Decoder::GetHeader` (line 50) -/
 def TECMP_Decoder_GetHeader_obj (m : Bytes) (a_data : Nat) (a_size : Nat) : Option (Bytes × Nat) := do
   let v_header := ([0, 0, 0, 0, 0, 255, 255, 0, 0, 0, 0, 0, 0, 0, 0, 0, 0, 0, 0, 0, 0, 0, 0, 0, 0, 0, 0, 0] : Bytes)
   let o_payloadPtr := 0
@@ -429,11 +429,15 @@ def TECMP_Decoder_GetCaptureModulePayload_obj (m : Bytes) (a_payloadData : Nat) 
   else
     let t1 ← TECMP_CaptureModulePayload_ctor_ptr_u64_obj m a_payloadData a_size
     let v_payload := t1
-    let t2 ← TECMP_Payload_isValid_obj v_payload
-    if t2 then
-      pure (some v_payload)
-    else
+    let t2 ← TECMP_CaptureModulePayload_getVendorDataLength v_payload.f_payloadData 0 v_payload.f_payloadData.length 0
+    if (decide ((usub 64 a_size 12) < t2)) then
       pure none
+    else
+      let t3 ← TECMP_Payload_isValid_obj v_payload
+      if t3 then
+        pure (some v_payload)
+      else
+        pure none
 
 /-- `TECMP::Payload::getMessageType` (line 43) -/
 def TECMP_Payload_getMessageType_obj (s : TECMP_Payload_St) : Option (Nat) := do
@@ -446,7 +450,7 @@ def TECMP_CanPayload_ctor_ptr_u64_obj (m : Bytes) (a_data : Nat) (a_size : Nat) 
   let s ← TECMP_Payload_ctor_rec_ptr_u64_obj m t1 a_data a_size
   pure s
 
-/-- `TECMP::Decoder::GetCanPayload` (line 153) -/
+/-- `TECMP::Decoder::GetCanPayload` (line 159) -/
 def TECMP_Decoder_GetCanPayload_obj (m : Bytes) (a_payloadData : Nat) (a_size : Nat) : Option (Option TECMP_Payload_St) := do
   let t3 ← (if (decide (a_size < 5)) then pure true else (do let t1 ← nonneg 32 4; let t2 ← rd m (a_payloadData + t1) 1; pure (decide ((usub 64 a_size 5) < t2))))
   if t3 then
@@ -470,7 +474,7 @@ def TECMP_LinPayload_ctor_ptr_u64_obj (m : Bytes) (a_data : Nat) (a_size : Nat) 
   let s ← TECMP_Payload_ctor_rec_ptr_u64_obj m t1 a_data a_size
   pure s
 
-/-- `TECMP::Decoder::GetLinPayload` (line 166) -/
+/-- `TECMP::Decoder::GetLinPayload` (line 172) -/
 def TECMP_Decoder_GetLinPayload_obj (m : Bytes) (a_payloadData : Nat) (a_size : Nat) : Option (Option TECMP_Payload_St) := do
   let t3 ← (if (decide (a_size < 2)) then pure true else (do let t1 ← nonneg 32 1; let t2 ← rd m (a_payloadData + t1) 1; pure (decide ((usub 64 a_size 2) < t2))))
   if t3 then
@@ -484,7 +488,7 @@ def TECMP_Decoder_GetLinPayload_obj (m : Bytes) (a_payloadData : Nat) (a_size : 
     else
       pure none
 
-/-- `TECMP::Decoder::GetDataPayload` (line 99) -/
+/-- `TECMP::Decoder::GetDataPayload` (line 103) -/
 def TECMP_Decoder_GetDataPayload_obj (m : Bytes) (a_payloadData : Nat) (a_size : Nat) (a_header : Bytes) : Option (Option TECMP_Payload_St) := do
   let t1 ← TECMP_CmpHeader_getDataType a_header 0
   let sw2 := t1
@@ -533,21 +537,21 @@ def TECMP_InterfacePayload_setBusData (m : Bytes) (pd_ pdsize_ : Nat) (this_ : N
   let m ← wrBytes m (pd_ + t1) x_data a_dataLenght
   pure m
 
-def TECMP_Decoder_GetInterfacePayload_loop1 (fuel : Nat) (m : Bytes) (a_payloadData : Nat) (a_size : Nat) (a_header : Bytes) (v_payloads : List (Option TECMP_Payload_St)) (v_payload : TECMP_Payload_St) (v_busDataOffset : Nat) : Option ((List (Option TECMP_Payload_St)) × Nat) :=
+def TECMP_Decoder_GetInterfacePayload_loop1 (fuel : Nat) (m : Bytes) (a_payloadData : Nat) (a_size : Nat) (a_header : Bytes) (v_payloads : List (Option TECMP_Payload_St)) (v_payload : TECMP_Payload_St) (v_busDataOffset : Nat) (v_entrySize : Nat) : Option ((List (Option TECMP_Payload_St)) × Nat) :=
   match fuel with
   | 0 => none
   | fuel + 1 => do
-    if (decide ((uadd 64 v_busDataOffset 12) ≤ a_size)) then
+    if (decide ((uadd 64 v_busDataOffset v_entrySize) ≤ a_size)) then
       let v_tempPayload := v_payload
-      let t4 ← TECMP_InterfacePayload_setBusData v_tempPayload.f_payloadData 0 v_tempPayload.f_payloadData.length 0 (m.drop (a_payloadData + v_busDataOffset)) 12
-      let v_tempPayload := { v_tempPayload with f_payloadData := t4 }
+      let t5 ← TECMP_InterfacePayload_setBusData v_tempPayload.f_payloadData 0 v_tempPayload.f_payloadData.length 0 (m.drop (a_payloadData + v_busDataOffset)) 12
+      let v_tempPayload := { v_tempPayload with f_payloadData := t5 }
       let v_payloads := v_payloads ++ [(some v_tempPayload)]
-      let v_busDataOffset := (uadd 64 v_busDataOffset 12)
-      TECMP_Decoder_GetInterfacePayload_loop1 fuel m a_payloadData a_size a_header v_payloads v_payload v_busDataOffset
+      let v_busDataOffset := (uadd 64 v_busDataOffset v_entrySize)
+      TECMP_Decoder_GetInterfacePayload_loop1 fuel m a_payloadData a_size a_header v_payloads v_payload v_busDataOffset v_entrySize
     else
       pure (v_payloads, v_busDataOffset)
 
-/-- `TECMP::Decoder::GetInterfacePayload` (line 127) -/
+/-- `TECMP::Decoder::GetInterfacePayload` (line 131) -/
 def TECMP_Decoder_GetInterfacePayload_obj (fuel : Nat) (m : Bytes) (a_payloadData : Nat) (a_size : Nat) (a_header : Bytes) : Option (List (Option TECMP_Payload_St)) := do
   let v_payloads := ([] : List (Option TECMP_Payload_St))
   let t1 ← TECMP_CmpHeader_getMessageType a_header 0
@@ -562,10 +566,12 @@ def TECMP_Decoder_GetInterfacePayload_obj (fuel : Nat) (m : Bytes) (a_payloadDat
       let v_busDataOffset := 12
       let t3 ← TECMP_InterfacePayload_setGenericData v_payload.f_payloadData 0 v_payload.f_payloadData.length 0 (m.drop a_payloadData)
       let v_payload := { v_payload with f_payloadData := t3 }
-      let (v_payloads, v_busDataOffset) ← TECMP_Decoder_GetInterfacePayload_loop1 fuel m a_payloadData a_size a_header v_payloads v_payload v_busDataOffset
+      let t4 ← TECMP_InterfacePayload_getVendorDataLength v_payload.f_payloadData 0 v_payload.f_payloadData.length 0
+      let v_entrySize := (uadd 64 12 t4)
+      let (v_payloads, v_busDataOffset) ← TECMP_Decoder_GetInterfacePayload_loop1 fuel m a_payloadData a_size a_header v_payloads v_payload v_busDataOffset v_entrySize
       pure v_payloads
 
-/-- `TECMP::Decoder::HandlePayload` (line 67) -/
+/-- `TECMP::Decoder::HandlePayload` (line 71) -/
 def TECMP_Decoder_HandlePayload_obj (fuel : Nat) (m : Bytes) (a_data : Nat) (a_size : Nat) (a_header : Bytes) : Option (List (Option TECMP_Payload_St)) := do
   let v_payloads := ([] : List (Option TECMP_Payload_St))
   let t1 ← TECMP_CmpHeader_getMessageType a_header 0
